@@ -26,6 +26,84 @@ def run(ctx):
     c = ctx.facts.lib("patronus")
     printer(ctx, c)
     reader(ctx, c)
+    per_witness_state(ctx, c)
+
+
+def per_witness_state(ctx, c):
+    """R16.3: "several witnesses written one after another are read back one by one": whatever the reader keeps between lines and lets influence
+    what it stores must be given back / emptied / set to its initial value somewhere in the line loop - state that is only ever advanced leaks
+    from one witness of the stream into the next"""
+    ctx.rule("R16.3", "every mutable local of parse_witnesses that lives across lines and influences the stored witness (used in a condition or handed to the helpers) is reset inside the line loop (taken, cleared or assigned its initial value); the state-machine variable and the returned list excepted")
+    f = ctx.fn("patronus", "patronus::btor2::witness::parse_witnesses")
+    ix = Index(f["body"])
+    defs = local_defs(f)
+    loops = [n for n in ix.nodes if n.get("k") in ("for", "while", "loop") and not ix.enclosing(n, ("for", "while", "loop", "closure"))]
+    if len(loops) != 1:
+        ctx.violation("R16.3", "parse_witnesses:line-loop", f["span"], "UNRECOGNISED: expected one top-level loop over the lines, found %d" % len(loops))
+        return
+    loop = loops[0]
+    ret = peel(norm_.result_value(f["body"]))
+    ret_id = ret["id"] if ret.get("k") == "local" else None
+    # closures bound to locals before the loop: name -> closure node
+    closures = {i_: peel(d[1]["init"]) for i_, d in defs.items() if d[0] == "let" and "init" in d[1] and d[2].get("k") == "pbind" and peel(d[1]["init"]).get("k") == "closure"}
+    region = [loop] + list(closures.values())
+
+    def aliases_of(lid):
+        """lid and the closure parameters it is passed to by `&mut lid` at calls from the loop"""
+        out = {lid}
+        for n in walk(loop):
+            if n.get("k") == "callv" and peel(n["f"]).get("k") == "local" and peel(n["f"])["id"] in closures:
+                cl = closures[peel(n["f"])["id"]]
+                for a_, p_ in zip(n["args"], cl.get("params", [])):
+                    if peel(a_).get("k") == "local" and peel(a_)["id"] == lid:
+                        out |= {i_ for _, i_ in pat_bindings(p_)}
+        return out
+    n_state = 0
+    for lid, d in sorted(defs.items()):
+        if not (d[0] == "let" and d[2].get("k") == "pbind" and d[2].get("mut") and "init" in d[1]) or contains(loop, d[1]) or any(contains(cl, d[1]) for cl in closures.values()):
+            continue
+        if not ix.precedes(d[1], loop) or lid == ret_id:
+            continue
+        # the state-machine variable: `state = match state { .. }`
+        if any(n.get("k") == "assign" and is_local(n["l"], lid) and peel(n["r"]).get("k") == "match" and is_local(peel(n["r"])["scrut"], lid) for n in walk(loop)):
+            continue
+        names = aliases_of(lid)
+        def is_l(x):
+            x = peel(x)
+            while x.get("k") == "unary" and x.get("op") == "*":
+                x = peel(x["e"])
+            return x.get("k") == "local" and (x["id"] in names or canon(x["id"]) == canon(lid))
+        written = any((n.get("k") in ("assign", "assignop") and is_l(root_of(n["l"]))) or (n.get("k") == "mcall" and n["name"] in MUTATORS and is_l(root_of(n["recv"])))
+                      or (n.get("k") == "ref" and n.get("mut") and is_l(n["e"])) for r_ in region for n in walk(r_))
+        if not written:
+            continue
+        influences = any((n.get("k") == "if" and any(is_l(x) for x in walk(n["cond"]))) or (n.get("k") == "match" and any(is_l(x) for x in walk(n["scrut"])))
+                         or (n.get("k") in ("callv", "call", "mcall") and not mac_names(n) and any(is_l(a_) for a_ in call_args(n)))
+                         for r_ in region for n in walk(r_))
+        if not influences:
+            continue
+        n_state += 1
+        init_txt = show(peel(d[1]["init"])).replace(" ", "")
+        resets = []
+        for r_ in region:
+            for n in walk(r_):
+                if n.get("k") == "call" and (callee(n) or "").endswith(("mem::take", "mem::replace", "mem::swap")) and n["args"] and is_l(n["args"][0]):
+                    resets.append(n)
+                if n.get("k") == "mcall" and n["name"] in ("clear", "take", "drain") and is_l(n["recv"]) and (n["name"] != "drain" or True):
+                    resets.append(n)
+                if n.get("k") == "assign" and is_l(n["l"]) and show(peel(n["r"])).replace(" ", "") == init_txt:
+                    resets.append(n)
+        ctx.inst("R16.3", "parse_witnesses:%s:reset" % d[2]["name"], bool(resets), d[1]["sp"],
+                 "`%s` is kept across lines, steers what is stored in the witness, is changed while reading but never taken, cleared or set back to its initial value `%s` inside the line loop: what the first witness of a stream leaves in it is still there when the next one is read" % (
+                     d[2]["name"], show(peel(d[1]["init"]))[:40]), sample={"local": d[2]["name"], "resets": len(resets)})
+    ctx.floor("R16.3", "reader state locals of parse_witnesses", n_state, 2)
+
+
+def root_of(e):
+    e = peel(e)
+    while e.get("k") in ("index", "field") or (e.get("k") == "unary" and e.get("op") == "*"):
+        e = peel(e["e"])
+    return e
 
 
 def sites_of(c, f, names=("write", "writeln")):
